@@ -78,5 +78,187 @@ Proof.
   subst ea1 ea2 ea3. cbn [app map kw_package kw_type kw_Peg] in Hall. exact Hall.
 Qed.
 
+(** a failing sequence stays failing when more elements follow *)
+Lemma seq_fail_extend (f : expr -> nat -> option out) l1 : forall l2 p v, seq_ev f l1 p = Some (Fail, v) -> seq_ev f (l1 ++ l2) p = Some (Fail, v).
+Proof.
+  induction l1 as [|e l1 IH]; intros l2 p v H; cbn [seq_ev app] in *; [discriminate|].
+  destruct (f e p) as [[[|q fq] vq]|]; try discriminate; [exact H|].
+  destruct (seq_ev f l1 q) as [[[|q' fq'] vq']|] eqn:E; try discriminate.
+  inv H. rewrite (IH l2 _ _ E). reflexivity.
+Qed.
+Lemma kos_extend l1 l2 p : kos l1 p -> kos (l1 ++ l2) p.
+Proof. intros (n & v & H). exists n, v. apply seq_fail_extend. exact H. Qed.
+
+(** ... and a ninth: after the package clause and any number of well-formed imports comes a text that begins with neither
+    `import` nor `type` (and not with layout, which the clause before it has consumed): Import fails on its keyword,
+    Import* ends, and so does the keyword `type`. *)
+Theorem grammar_rejects_missing_type hdr spkg pkg s1 imps rest :
+  header_ok hdr [112] -> lay spkg -> spkg <> [] -> ident_ok pkg = true -> lay s1 -> s1 <> [] ->
+  Forall imp_ok imps -> stop rest -> (forall r, rest <> kw_import ++ r) -> (forall r, rest <> kw_type ++ r) ->
+  buf = flat_map hshow hdr ++ kw_package ++ spkg ++ pkg ++ s1 ++ flat_map impshow imps ++ rest ->
+  ko (EName pr_Grammar) 0.
+Proof.
+  intros Hh Hsp Hspn Hpk Hs1 Hs1n Himp Hstop Nimp Ntype Ebuf.
+  assert (Hat : At 0 (flat_map hshow hdr ++ kw_package ++ spkg ++ pkg ++ s1 ++ flat_map impshow imps ++ rest)).
+  { rewrite <- Ebuf. apply At_start. }
+  let b := eval vm_compute in (nth_error pegpeg_d pr_Grammar) in
+  lazymatch b with
+  | Some (RBody (ESeq [_; _; _; _; ?a1; _; _; _; _; ?a2; _; _; _; ?a3; _; _])) => pose (ea1 := a1); pose (ea2 := a2); pose (ea3 := a3)
+  end.
+  assert (Hea1 : forall q t0, C ea1 q q [(CAddPackage, sub buf t0)] t0 t0) by (intros; subst ea1; cgo).
+  assert (Hst1 : stop (flat_map impshow imps ++ rest)).
+  { destruct imps as [|i' l']; cbn [flat_map app]; [exact Hstop|].
+    destruct i'; cbn [impshow]; unfold kw_import; cbn [app]; apply stop_char; lia. }
+  destruct (seg_head buf penv hdr spkg pkg s1 _ ea1 0%nat (0%nat, 0%nat) Hh Hsp Hspn Hpk Hs1 Hs1n Hst1 Hea1 Hat) as [t1 S1].
+  set (q1 := (0 + length (flat_map hshow hdr) + 7 + length spkg + length pkg + length s1)%nat) in *.
+  assert (A1 : At q1 (flat_map impshow imps ++ rest)).
+  { subst q1. atn Hat as X0. unfold kw_package in X0. cbn [app] in X0. at1 X0 as X1. at1 X1 as X2. at1 X2 as X3. at1 X3 as X4. at1 X4 as X5. at1 X5 as X6. at1 X6 as X7.
+    atn X7 as X8. atn X8 as X9. atn X9 as X10.
+    replace (0 + length (flat_map hshow hdr) + 7 + length spkg + length pkg + length s1)%nat
+      with (S (S (S (S (S (S (S (0 + length (flat_map hshow hdr)))))))) + length spkg + length pkg + length s1)%nat by lia. exact X10. }
+  atn A1 as A2. set (q2 := (q1 + length (flat_map impshow imps))%nat) in *.
+  assert (Kimp : ko (EName pr_Import) q2).
+  { ko_into_rule. apply ko_seq.
+    let b := eval vm_compute in (nth_error pegpeg_d pr_Import) in
+    lazymatch b with
+    | Some (RBody (ESeq [_; _; _; _; _; _; ?s; ?a; ?s'])) =>
+        change (kos (map EChar kw_import ++ [s; a; s']) q2)
+    end.
+    apply kos_extend. exact (kw_ko buf penv kw_import _ _ A2 Nimp). }
+  destruct (imports_star buf penv imps _ q1 t1 Himp Hstop Kimp A1) as [t2 S2].
+  assert (K3 : kos [kwe kw_type; EName pr_MustSpacing; EName pr_Identifier; ea2; kwe kw_Peg; EName pr_Spacing; EName pr_Action; ea3;
+                    EPlus (EName pr_Definition); EName pr_EndOfFile] q2).
+  { apply kos_head. apply ko_seq. exact (kw_ko buf penv kw_type _ _ A2 Ntype). }
+  ko_into_rule. apply ko_seq.
+  assert (Hall : kos (([EName pr_Header; kwe kw_package; EName pr_MustSpacing; EName pr_Identifier; ea1] ++ [EStar (EName pr_Import)]) ++
+                  [kwe kw_type; EName pr_MustSpacing; EName pr_Identifier; ea2; kwe kw_Peg; EName pr_Spacing; EName pr_Action; ea3;
+                   EPlus (EName pr_Definition); EName pr_EndOfFile]) 0).
+  { eapply kos_app_Cs; [|exact K3]. eapply Cs_app; [exact S1|]. eapply Cs_cons; [exact S2|apply Cs_nil]. }
+  subst ea1 ea2 ea3. cbn [app map kw_package kw_type kw_Peg] in Hall. exact Hall.
+Qed.
+
+(** the general form of the last two: whatever follows the well-formed imports, if Import fails there and the text does
+    not go on with `type`, the file is refused *)
+Lemma rejects_after_imports hdr spkg pkg s1 imps rest :
+  header_ok hdr [112] -> lay spkg -> spkg <> [] -> ident_ok pkg = true -> lay s1 -> s1 <> [] ->
+  Forall imp_ok imps -> stop rest -> (forall q, At q rest -> ko (EName pr_Import) q) -> (forall r, rest <> kw_type ++ r) ->
+  buf = flat_map hshow hdr ++ kw_package ++ spkg ++ pkg ++ s1 ++ flat_map impshow imps ++ rest ->
+  ko (EName pr_Grammar) 0.
+Proof.
+  intros Hh Hsp Hspn Hpk Hs1 Hs1n Himp Hstop Kq Ntype Ebuf.
+  assert (Hat : At 0 (flat_map hshow hdr ++ kw_package ++ spkg ++ pkg ++ s1 ++ flat_map impshow imps ++ rest)).
+  { rewrite <- Ebuf. apply At_start. }
+  let b := eval vm_compute in (nth_error pegpeg_d pr_Grammar) in
+  lazymatch b with
+  | Some (RBody (ESeq [_; _; _; _; ?a1; _; _; _; _; ?a2; _; _; _; ?a3; _; _])) => pose (ea1 := a1); pose (ea2 := a2); pose (ea3 := a3)
+  end.
+  assert (Hea1 : forall q t0, C ea1 q q [(CAddPackage, sub buf t0)] t0 t0) by (intros; subst ea1; cgo).
+  assert (Hst1 : stop (flat_map impshow imps ++ rest)).
+  { destruct imps as [|i' l']; cbn [flat_map app]; [exact Hstop|].
+    destruct i'; cbn [impshow]; unfold kw_import; cbn [app]; apply stop_char; lia. }
+  destruct (seg_head buf penv hdr spkg pkg s1 _ ea1 0%nat (0%nat, 0%nat) Hh Hsp Hspn Hpk Hs1 Hs1n Hst1 Hea1 Hat) as [t1 S1].
+  set (q1 := (0 + length (flat_map hshow hdr) + 7 + length spkg + length pkg + length s1)%nat) in *.
+  assert (A1 : At q1 (flat_map impshow imps ++ rest)).
+  { subst q1. atn Hat as X0. unfold kw_package in X0. cbn [app] in X0. at1 X0 as X1. at1 X1 as X2. at1 X2 as X3. at1 X3 as X4. at1 X4 as X5. at1 X5 as X6. at1 X6 as X7.
+    atn X7 as X8. atn X8 as X9. atn X9 as X10.
+    replace (0 + length (flat_map hshow hdr) + 7 + length spkg + length pkg + length s1)%nat
+      with (S (S (S (S (S (S (S (0 + length (flat_map hshow hdr)))))))) + length spkg + length pkg + length s1)%nat by lia. exact X10. }
+  atn A1 as A2. set (q2 := (q1 + length (flat_map impshow imps))%nat) in *.
+  assert (Kimp : ko (EName pr_Import) q2) by (apply Kq; exact A2).
+  destruct (imports_star buf penv imps _ q1 t1 Himp Hstop Kimp A1) as [t2 S2].
+  assert (K3 : kos [kwe kw_type; EName pr_MustSpacing; EName pr_Identifier; ea2; kwe kw_Peg; EName pr_Spacing; EName pr_Action; ea3;
+                    EPlus (EName pr_Definition); EName pr_EndOfFile] q2).
+  { apply kos_head. apply ko_seq. exact (kw_ko buf penv kw_type _ _ A2 Ntype). }
+  ko_into_rule. apply ko_seq.
+  assert (Hall : kos (([EName pr_Header; kwe kw_package; EName pr_MustSpacing; EName pr_Identifier; ea1] ++ [EStar (EName pr_Import)]) ++
+                  [kwe kw_type; EName pr_MustSpacing; EName pr_Identifier; ea2; kwe kw_Peg; EName pr_Spacing; EName pr_Action; ea3;
+                   EPlus (EName pr_Definition); EName pr_EndOfFile]) 0).
+  { eapply kos_app_Cs; [|exact K3]. eapply Cs_app; [exact S1|]. eapply Cs_cons; [exact S2|apply Cs_nil]. }
+  subst ea1 ea2 ea3. cbn [app map kw_package kw_type kw_Peg] in Hall. exact Hall.
+Qed.
+
+(** ... an eleventh family: `import` followed by something that can start neither an import block nor an import name -
+    single quotes, angle brackets, a digit, the end of the text *)
+Theorem grammar_rejects_bad_import hdr spkg pkg s1 imps sp T :
+  header_ok hdr [112] -> lay spkg -> spkg <> [] -> ident_ok pkg = true -> lay s1 -> s1 <> [] ->
+  Forall imp_ok imps -> lay sp -> stop T ->
+  (forall c r, T = c :: r -> c <> 40 /\ is_istart c = false /\ c <> 34) ->
+  buf = flat_map hshow hdr ++ kw_package ++ spkg ++ pkg ++ s1 ++ flat_map impshow imps ++ kw_import ++ sp ++ T ->
+  ko (EName pr_Grammar) 0.
+Proof.
+  intros Hh Hsp Hspn Hpk Hs1 Hs1n Himp Hlsp HstT HT Ebuf.
+  apply (rejects_after_imports hdr spkg pkg s1 imps (kw_import ++ sp ++ T) Hh Hsp Hspn Hpk Hs1 Hs1n Himp).
+  - unfold kw_import. cbn [app]. apply stop_char; lia.
+  - intros q A2. unfold kw_import in A2. cbn [app] in A2.
+    at1 A2 as B1. at1 B1 as B2. at1 B2 as B3. at1 B3 as B4. at1 B4 as B5. at1 B5 as B6.
+    pose proof (fun t => spacing_ok buf penv sp _ _ t Hlsp HstT B6) as Hsp3. atn B6 as B7.
+    assert (KS : ko (EName pr_SingleImport) (S (S (S (S (S (S q))))) + length sp)%nat).
+    { ko_into_rule. eapply iname_ko; [exact B7|]. intros c r E. destruct (HT c r E) as (_ & H2 & H3). split; assumption. }
+    assert (KM : ko (EName pr_MultiImport) (S (S (S (S (S (S q))))) + length sp)%nat).
+    { ko_into_rule. apply ko_seq. apply kos_head. destruct T as [|c r]; [korun|]. destruct (HT c r eq_refl) as (H1 & _). korun. }
+    ko_into_rule. apply ko_seq. cbn [map].
+    eapply (kos_tail_C _ _ _ _ _ _ _ (0%nat, 0%nat)); [crun|]. eapply (kos_tail_C _ _ _ _ _ _ _ (0%nat, 0%nat)); [crun|].
+    eapply (kos_tail_C _ _ _ _ _ _ _ (0%nat, 0%nat)); [crun|]. eapply (kos_tail_C _ _ _ _ _ _ _ (0%nat, 0%nat)); [crun|].
+    eapply (kos_tail_C _ _ _ _ _ _ _ (0%nat, 0%nat)); [crun|]. eapply (kos_tail_C _ _ _ _ _ _ _ (0%nat, 0%nat)); [crun|].
+    eapply (kos_tail_C _ _ _ _ _ _ _ _ _ (Hsp3 (0%nat, 0%nat))). apply kos_head. apply ko_alt.
+    apply koa_cons; [exact KM|]. apply koa_cons; [exact KS|]. apply koa_nil.
+  - intros r E. unfold kw_import, kw_type in E. cbn [app] in E. discriminate.
+  - exact Ebuf.
+Qed.
+
+
+(** ... and a tenth: the parser type without its `Peg` keyword - after `type`, layout, a name and layout comes a text that
+    does not begin with `Peg` (nor with layout). *)
+Theorem grammar_rejects_missing_Peg f rest : head_ok f -> stop rest -> (forall r, rest <> kw_Peg ++ r) ->
+  buf = pre_text f ++ rest -> ko (EName pr_Grammar) 0.
+Proof.
+  intros (Hh & Hsp & Hspn & Hpk & Hs1 & Hs1n & Himp & Hst & Hstn & Hpeg & Hs2 & Hs2n & Hs3 & Hbal & Hs4) Hstop NPeg Ebuf.
+  destruct f as [hdr spkg pkg s1 imps stype peg s2 s3 state s4 defs]. unfold pre_text in *.
+  cbn [f_header f_s_pkg f_pkg f_s1 f_imports f_s_type f_peg f_s2 f_s3 f_state f_s4 f_defs] in *.
+  assert (Hat : At 0 (flat_map hshow hdr ++ kw_package ++ spkg ++ pkg ++ s1 ++ flat_map impshow imps ++
+                      kw_type ++ stype ++ peg ++ s2 ++ rest)).
+  { replace (flat_map hshow hdr ++ kw_package ++ spkg ++ pkg ++ s1 ++ flat_map impshow imps ++
+             kw_type ++ stype ++ peg ++ s2 ++ rest) with buf; [apply At_start|].
+    rewrite Ebuf. repeat (rewrite <- ?app_assoc, <- ?app_comm_cons; cbn [app]). reflexivity. }
+  let b := eval vm_compute in (nth_error pegpeg_d pr_Grammar) in
+  lazymatch b with
+  | Some (RBody (ESeq [_; _; _; _; ?a1; _; _; _; _; ?a2; _; _; _; ?a3; _; _])) => pose (ea1 := a1); pose (ea2 := a2); pose (ea3 := a3)
+  end.
+  assert (Hea1 : forall q t0, C ea1 q q [(CAddPackage, sub buf t0)] t0 t0) by (intros; subst ea1; cgo).
+  assert (Hea2 : forall q t0, C ea2 q q [(CAddPeg, sub buf t0)] t0 t0) by (intros; subst ea2; cgo).
+  assert (Hst1 : stop (flat_map impshow imps ++ kw_type ++ stype ++ peg ++ s2 ++ rest)).
+  { destruct imps as [|i' l']; cbn [flat_map app]; [unfold kw_type; cbn [app]; apply stop_char; lia|].
+    destruct i'; cbn [impshow]; unfold kw_import; cbn [app]; apply stop_char; lia. }
+  destruct (seg_head buf penv hdr spkg pkg s1 _ ea1 0%nat (0%nat, 0%nat) Hh Hsp Hspn Hpk Hs1 Hs1n Hst1 Hea1 Hat) as [t1 S1].
+  set (q1 := (0 + length (flat_map hshow hdr) + 7 + length spkg + length pkg + length s1)%nat) in *.
+  assert (A1 : At q1 (flat_map impshow imps ++ kw_type ++ stype ++ peg ++ s2 ++ rest)).
+  { subst q1. atn Hat as X0. unfold kw_package in X0. cbn [app] in X0. at1 X0 as X1. at1 X1 as X2. at1 X2 as X3. at1 X3 as X4. at1 X4 as X5. at1 X5 as X6. at1 X6 as X7.
+    atn X7 as X8. atn X8 as X9. atn X9 as X10.
+    replace (0 + length (flat_map hshow hdr) + 7 + length spkg + length pkg + length s1)%nat
+      with (S (S (S (S (S (S (S (0 + length (flat_map hshow hdr)))))))) + length spkg + length pkg + length s1)%nat by lia. exact X10. }
+  atn A1 as A2.
+  assert (Kimp : ko (EName pr_Import) (q1 + length (flat_map impshow imps))%nat) by (unfold kw_type in A2; cbn [app] in A2; korun).
+  assert (Hst2 : stop (kw_type ++ stype ++ peg ++ s2 ++ rest)) by (unfold kw_type; cbn [app]; apply stop_char; lia).
+  destruct (imports_star buf penv imps _ q1 t1 Himp Hst2 Kimp A1) as [t2 S2].
+  destruct (seg_type buf penv stype peg s2 _ ea2 _ t2 Hst Hstn Hpeg Hs2 Hs2n Hstop Hea2 A2) as [t3 S3].
+  set (q3 := (q1 + length (flat_map impshow imps) + 4 + length stype + length peg + length s2)%nat) in *.
+  assert (A3 : At q3 rest).
+  { subst q3. unfold kw_type in A2. cbn [app] in A2. at1 A2 as X1. at1 X1 as X2. at1 X2 as X3. at1 X3 as X4. atn X4 as X5. atn X5 as X6. atn X6 as X7.
+    replace (q1 + length (flat_map impshow imps) + 4 + length stype + length peg + length s2)%nat
+      with (S (S (S (S (q1 + length (flat_map impshow imps))))) + length stype + length peg + length s2)%nat by lia. exact X7. }
+  assert (K4 : kos [kwe kw_Peg; EName pr_Spacing; EName pr_Action; ea3; EPlus (EName pr_Definition); EName pr_EndOfFile] q3).
+  { apply kos_head. apply ko_seq. exact (kw_ko buf penv kw_Peg _ _ A3 NPeg). }
+  ko_into_rule. apply ko_seq.
+  assert (Hall : kos (([EName pr_Header; kwe kw_package; EName pr_MustSpacing; EName pr_Identifier; ea1] ++ [EStar (EName pr_Import)] ++
+                  [kwe kw_type; EName pr_MustSpacing; EName pr_Identifier; ea2]) ++
+                  [kwe kw_Peg; EName pr_Spacing; EName pr_Action; ea3; EPlus (EName pr_Definition); EName pr_EndOfFile]) 0).
+  { eapply kos_app_Cs; [|exact K4].
+    eapply Cs_app; [exact S1|]. eapply Cs_app; [eapply Cs_cons; [exact S2|apply Cs_nil]|exact S3]. }
+  subst ea1 ea2 ea3. cbn [app map kw_package kw_type kw_Peg] in Hall. exact Hall.
+Qed.
+
 End RejectImport.
 Print Assumptions grammar_rejects_unclosed_import.
+Print Assumptions grammar_rejects_missing_type.
+Print Assumptions grammar_rejects_missing_Peg.
+Print Assumptions grammar_rejects_bad_import.
